@@ -466,10 +466,10 @@ register("C10", oracles=[oracles.deep_oracle], extra=[families.MutateFamily("pop
 register("C14", extra=[families.MutateFamily("handles", 1500, 60000, "outcome and object graph of Match.data assignment / del / pop histories")],
          rule="1-4 live Match handles (several on the same slot, on shifting list items, obtained through filters / recursion / wildcards) x sequences of m.data = v, del m.data, m.pop(default), m.data reads")
 
-register("C18", extra=[families.MutateFamily("descr", 1500, 60000, "outcome and object graph of descriptor reads / writes / deletes"),
+register("C18", oracles=[oracles.stored_default_alias_oracle], extra=[families.MutateFamily("descr", 1500, 60000, "outcome and object graph of descriptor reads / writes / deletes"),
                        families.MutateFamily("listview", 500, 20000, "writes through the list view of a list-typed attribute reach the original document")],
          rule="histories over Document subclasses built from random declarations: attr with/without expression, getters get/find/get_match, setters set_/set_match, converters (identity, numeric negation, boxing), typed chains (attr_typed, element k of attr_iter_typed) whose inner attributes are read / written / deleted, iterator-typed assignment, deprecated pprop/mprop; compared: outcome, returned value identity, whole object graph")
-register("C19", extra=[families.MutateFamily("listview", 1500, 60000, "results and object graph of list-view operation histories")],
+register("C19", oracles=[oracles.stored_default_alias_oracle], extra=[families.MutateFamily("listview", 1500, 60000, "results and object graph of list-view operation histories")],
          rule="histories of len / [i] / [i]= / del [i] / in / append / pop(i) / iteration / live iterators interleaved with mutations / keep_all / remove_all through the view of a list-typed attribute (identity, negating and boxing converters; empty lists; negative and out-of-range indices; predicates keeping none / some / all); compared: results and the document's own list object in the whole object graph")
 
 register("C15", streams=[Q("filter", pred="has", apis=["find_matches"], src=False, guarded=0.2)], n_quick=2500, n_thorough=60000,
